@@ -214,7 +214,7 @@ def _branch_and_price(
     total_cg_iters = 0
 
     # Solve root node LP via column generation
-    x_vals, lp_obj, cg_iters = _solve_node_lp(
+    x_vals, lp_obj, cg_iters, converged = _solve_node_lp(
         columns, column_set, demands, {}, pricing_fn, is_cutting_stock, max_iter, eps
     )
     total_cg_iters += cg_iters
@@ -222,11 +222,17 @@ def _branch_and_price(
     if lp_obj == float("inf"):
         return Result(None, float("inf"), 0, total_cg_iters, Status.INFEASIBLE)
 
+    # The proof of optimality holds only while every node LP converged
+    exact = converged
+    # Every column costs 1, so the rounded-up root LP value bounds the integer optimum
+    root_lb = ceil(lp_obj - 1e-6) if converged else 0
+
     # Check if root LP is already integer
     frac_idx, frac_val = _most_fractional(x_vals, eps)
-    if frac_idx is None:
+    if frac_idx is None and _covers(_build_solution(x_vals, columns, eps), demands):
         solution = _build_solution(x_vals, columns, eps)
-        return Result(solution, lp_obj, 0, total_cg_iters, Status.OPTIMAL)
+        obj = float(sum(solution.values()))
+        return Result(solution, obj, 0, total_cg_iters, Status.OPTIMAL if exact else Status.FEASIBLE)
 
     # Initialize B&B
     best_solution: dict[tuple[int, ...], int] | None = None
@@ -243,7 +249,12 @@ def _branch_and_price(
     counter += 1
     nodes_explored = 0
 
+    stopped = False
+
     while tree and nodes_explored < max_nodes:
+        if best_obj <= root_lb:
+            break  # incumbent meets the root bound: proven optimal
+
         _, _, node = heappop(tree)
 
         # Prune by bound
@@ -254,13 +265,15 @@ def _branch_and_price(
         col_bounds = {idx: (lo, hi) for idx, lo, hi in node.column_bounds}
 
         # Solve node LP with column generation
-        x_vals, lp_obj, cg_iters = _solve_node_lp(
+        x_vals, lp_obj, cg_iters, converged = _solve_node_lp(
             columns, column_set, demands, col_bounds, pricing_fn, is_cutting_stock, max_iter, eps
         )
         total_cg_iters += cg_iters
         nodes_explored += 1
+        exact = exact and converged
 
         if report_progress(on_progress, progress_interval, nodes_explored, lp_obj, best_obj, total_cg_iters):
+            stopped = True
             break
 
         # Prune infeasible or dominated
@@ -272,14 +285,15 @@ def _branch_and_price(
 
         if frac_idx is None:
             # Integer feasible - update incumbent
-            obj = sum(x for x in x_vals if x > eps)
-            if obj < best_obj - eps:
-                best_solution = _build_solution(x_vals, columns, eps)
+            candidate = _build_solution(x_vals, columns, eps)
+            obj = float(sum(candidate.values()))
+            if obj < best_obj - eps and _covers(candidate, demands):
+                best_solution = candidate
                 best_obj = obj
 
-                # Check gap
+                # Check gap (best-first: this node's bound is the smallest open bound)
                 gap = (best_obj - lp_obj) / max(abs(best_obj), 1e-10)
-                if gap < gap_tol:
+                if gap < gap_tol and exact:
                     return Result(best_solution, best_obj, nodes_explored, total_cg_iters, Status.OPTIMAL)
             continue
 
@@ -301,19 +315,25 @@ def _branch_and_price(
     if best_solution is None:
         return Result(None, float("inf"), nodes_explored, total_cg_iters, Status.INFEASIBLE)
 
-    status = Status.OPTIMAL if not tree else Status.FEASIBLE
+    proven = best_obj <= root_lb or (exact and not stopped and not tree)
+    status = Status.OPTIMAL if proven else Status.FEASIBLE
     return Result(best_solution, best_obj, nodes_explored, total_cg_iters, status)
 
 
 def _solve_node_lp(columns, column_set, demands, col_bounds, pricing_fn, is_cutting_stock, max_iter, eps):
     """Solve LP relaxation at a B&B node via column generation."""
     cg_iters = 0
+    # converged: pricing found no improving column, so lp_obj is the node's true LP bound.
+    # Otherwise (max_iter reached, or pricing keeps proposing a pooled column whose branching
+    # bound it cannot see) lp_obj is only the value of the restricted master.
+    converged = False
 
     for _ in range(max_iter):
         x_vals, duals, lp_obj = _solve_bounded_master_lp(columns, demands, col_bounds, eps)
 
         if lp_obj == float("inf"):
-            return x_vals, lp_obj, cg_iters
+            # the pool cannot satisfy the node; without Farkas pricing that proves nothing about the node
+            return x_vals, lp_obj, cg_iters, False
 
         # Pricing
         new_col, pricing_value = pricing_fn(duals)
@@ -321,20 +341,25 @@ def _solve_node_lp(columns, column_set, demands, col_bounds, pricing_fn, is_cutt
         # Check reduced cost
         if is_cutting_stock:
             if pricing_value <= 1.0 + eps:
+                converged = True
                 break
         else:
             if new_col is None or pricing_value >= -eps:
+                converged = True
                 break
 
-        if new_col is not None and new_col not in column_set:
-            columns.append(new_col)
-            column_set.add(new_col)
+        if new_col is None or tuple(new_col) in column_set:
+            break  # nothing new to add: another round would repeat this one
+
+        new_col = tuple(new_col)
+        columns.append(new_col)
+        column_set.add(new_col)
 
         cg_iters += 1
 
     # Final solve
     x_vals, duals, lp_obj = _solve_bounded_master_lp(columns, demands, col_bounds, eps)
-    return x_vals, lp_obj, cg_iters
+    return x_vals, lp_obj, cg_iters, converged
 
 
 def _solve_bounded_master_lp(columns, demands, col_bounds, eps):
@@ -474,6 +499,14 @@ def _build_solution(x_vals, columns, eps):
             if count > 0:
                 solution[columns[i]] = count
     return solution
+
+
+def _covers(solution, demands):
+    """True if the plan produces at least the demanded amount of every piece."""
+    for i, d in enumerate(demands):
+        if sum(col[i] * cnt for col, cnt in solution.items()) < d:
+            return False
+    return True
 
 
 def _round_solution(x_vals, columns, demands, eps):
